@@ -165,7 +165,9 @@ def c05_2(ctx: Ctx) -> RuleResult:
 @rule(P)
 def c05_3(ctx: Ctx) -> RuleResult:
     r = c01_3(ctx)
-    r.instances = [i for i in r.instances if "rows of" in i.construct]
+    # the clauses about the matrices of per-function weights: the filter's result is stored, at the rows mapped to it,
+    # the filter is consulted whenever a row is mapped to it, and rows written for earlier filters are kept
+    r.instances = [i for i in r.instances if "rows of" in i.construct or "filter stores" in i.construct]
     for i in r.instances:
         i.rule = "C05.3"
     r.rule, r.title, r.floor = "C05.3", "each filter's weights are applied to exactly the objectives and constraints mapped to it", 2
